@@ -119,10 +119,17 @@ class SimLoop(asyncio.SelectorEventLoop):
         delay = self.exec_delay
         if self.exec_hook is not None:
             verdict = self.exec_hook(func)
-            if verdict is not None and verdict[0] == "raise":
+            if verdict is not None and verdict[0] in ("raise", "raise_after"):
                 exc = verdict[1]
+                real = func
 
-                def func(*a, _exc=exc):
+                def func(*a, _exc=exc, _after=verdict[0] == "raise_after"):
+                    if _after:
+                        # (a close() that reports an error has let go of the file all the same)
+                        try:
+                            real(*a)
+                        except Exception:
+                            pass
                     raise _exc
             elif verdict is not None and verdict[0] == "delay":
                 delay = verdict[1]
